@@ -15,7 +15,7 @@ import (
 // Explicit-state search over Register*/call/load histories + an argument/result conversion product.
 
 type c20Case struct {
-	Mode    string `json:"mode"` // history | convert
+	Mode    string `json:"mode"` // history | convert | mutate
 	Wide    bool   `json:"wide,omitempty"`
 	History []int  `json:"history,omitempty"`
 	Type    int    `json:"type,omitempty"`   // convert: receiver type
@@ -436,8 +436,67 @@ func c20Convert(cs c20Case) (ok bool, sig, expected, observed string) {
 	return true, "", expected, o.String()
 }
 
+// c20Mutate: custom functions that change the values they received must not affect later calls.
+func c20Mutate(cs c20Case) (ok bool, sig, expected, observed string) {
+	var got [][]any
+	var gotArgs []any
+	o := guard(func() Outcome {
+		rt.ResetAll()
+		got, gotArgs = nil, nil
+		textwire.RegisterArrFunc("mut", func(s []any, a ...any) []any {
+			got = append(got, append([]any{}, s...))
+			for i := range s {
+				s[i] = "MUT"
+			}
+			if len(a) > 0 {
+				gotArgs = append(gotArgs, fmt.Sprint(a[0]))
+				if m, ok := a[0].(map[string]any); ok {
+					m["k"] = "MUT"
+				}
+				if l, ok := a[0].([]any); ok && len(l) > 0 {
+					l[0] = "MUT"
+				}
+			}
+			return []any{len(s)}
+		})
+		srcs := []string{
+			"{{ x = [1, 2] }}{{ x.mut() }}|{{ x.mut() }}|{{ x }}",
+			"{{ x.mut() }}|{{ x.mut() }}|{{ x }}",
+			"{{ y = [[1, 2], 3] }}{{ y[0].mut() }}|{{ y[0].mut() }}|{{ y }}",
+			"{{ o = {k: 5} }}{{ a = [7] }}{{ [0].mut(o) }}{{ [0].mut(o) }}{{ [0].mut(a) }}{{ [0].mut(a) }}|{{ o.k }}|{{ a }}",
+		}
+		out, err := textwire.EvaluateString(srcs[cs.Type%len(srcs)], map[string]any{"x": []any{1, 2}})
+		if err != nil {
+			return parseErr(err)
+		}
+		return Outcome{Kind: KOut, Out: out}
+	})
+	wants := []string{"2|2|1, 2", "2|2|1, 2", "2|2|1, 2, 3", "1111|5|7"}
+	want := wants[cs.Type%len(wants)]
+	expected = fmt.Sprintf("Value(%q); every call receives the original content", want)
+	if o.Kind == KPanic || o.Kind == KHang {
+		return false, o.Kind + "@" + o.Site, expected, o.String()
+	}
+	if o.Kind != KOut || o.Out != want {
+		return false, "mutating-custom-function-visible-in-template", expected, o.String()
+	}
+	if cs.Type%4 < 3 {
+		for _, g := range got {
+			if fmt.Sprint(g) != "[1 2]" {
+				return false, "mutating-custom-function-affects-later-call", expected, fmt.Sprintf("receivers seen by the function: %v", got)
+			}
+		}
+	} else if fmt.Sprint(gotArgs) != "[map[k:5] map[k:5] [7] [7]]" {
+		return false, "mutating-custom-function-affects-later-call", expected, fmt.Sprintf("arguments seen by the function: %v", gotArgs)
+	}
+	return true, "", expected, o.String()
+}
+
 func c20Check(cs c20Case) (bool, string, string, string) {
 	enterScratch()
+	if cs.Mode == "mutate" {
+		return c20Mutate(cs)
+	}
 	if cs.Mode == "convert" {
 		return c20Convert(cs)
 	}
@@ -511,6 +570,18 @@ func c20BFS(c *Ctx, depth int, wide bool) bool {
 }
 
 func c20Conversions(c *Ctx) {
+	if c.Mine() {
+		for t := 0; t < 4; t++ {
+			cs := c20Case{Mode: "mutate", Type: t}
+			c.Trace(cs)
+			ok, sig, exp, obs := c20Mutate(cs)
+			c.Evals(1)
+			c.Case(true)
+			if !ok {
+				c.Report(sig, 9500000+int64(t), cs, exp, obs, "")
+			}
+		}
+	}
 	// conversion product
 	for t := range c20Types {
 		if !c.Mine() {
